@@ -76,6 +76,11 @@ LawDistribute == \A i, j \in 1..Len(store) : Finite(store[i]) /\ Finite(store[j]
     \A v \in store[i].scope \ store[j].scope :   \* sum-out commutes with product when v is private to one operand
        FEqual(FMarg(dom, FProduct(dom, store[i], store[j]), {v}), FProduct(dom, FMarg(dom, store[i], {v}), store[j]))
 
+\* FactorDict.dot on the final store: for every pair of objects over the same non-empty scope the sum over named assignments of the
+\* product (whatever the axis orders of the two objects are)
+Dots == UNION {{[i |-> i, j |-> j, v |-> FDot(dom, store[i], store[j])] :
+                    j \in {k \in i..Len(store) : store[k].scope = store[i].scope /\ ~HasInf(store[k])}}
+               : i \in {k \in 1..Len(store) : store[k].scope # {} /\ ~HasInf(store[k])}}
 Emit == (Len(hist) = MaxDepth \/ (EmitAll /\ Len(hist) > 0)) =>
-           PrintT(ToJson([pool |-> P.id, steps |-> hist]))
+           PrintT(ToJson([pool |-> P.id, steps |-> hist, dots |-> Dots]))
 =============================================================================
